@@ -75,6 +75,7 @@ func (e *Exec) ensureKeySort(k string) bool {
 type modInfo struct {
 	direct  map[string]bool
 	callees map[*types.Func]bool
+	cbs     map[string]bool // callback fields invoked directly ("Type.field")
 }
 
 func (p *Program) buildModsets() {
@@ -86,9 +87,77 @@ func (p *Program) buildModsets() {
 		if fi.Decl.Body == nil {
 			continue
 		}
-		mi := &modInfo{direct: map[string]bool{}, callees: map[*types.Func]bool{}}
+		mi := &modInfo{direct: map[string]bool{}, callees: map[*types.Func]bool{}, cbs: map[string]bool{}}
 		infos[fn] = mi
 		p.scanWrites(fi, fi.Decl.Body, mi)
+	}
+	// base write-sets: without the writes of registered callback implementations (who writes a key apart from them)
+	{
+		base := map[*types.Func]map[string]bool{}
+		for fn, mi := range infos {
+			s := map[string]bool{}
+			for k := range mi.direct {
+				s[k] = true
+			}
+			base[fn] = s
+		}
+		for ch := true; ch; {
+			ch = false
+			for fn, mi := range infos {
+				s := base[fn]
+				for cal := range mi.callees {
+					for k := range p.calleeSet(cal, base) {
+						if !s[k] {
+							s[k] = true
+							ch = true
+						}
+					}
+				}
+			}
+		}
+		p.baseModsets = base
+	}
+	// callback fields a function may invoke (transitively, regardless of declared frames) and their registered
+	// implementations: the implementation's writes are part of the write-set of everything that may invoke it
+	p.cbImpls = map[string][]*types.Func{}
+	for fn, fi := range p.Funcs {
+		if fi.C != nil {
+			for _, r := range fi.C.Registers {
+				p.cbImpls[r] = append(p.cbImpls[r], fn)
+			}
+		}
+	}
+	cbsets := map[*types.Func]map[string]bool{}
+	for fn, mi := range infos {
+		s := map[string]bool{}
+		for k := range mi.cbs {
+			s[k] = true
+		}
+		cbsets[fn] = s
+	}
+	for ch := true; ch; {
+		ch = false
+		for fn, mi := range infos {
+			s := cbsets[fn]
+			for cal := range mi.callees {
+				for _, c2 := range p.staticTargets(cal, infos) {
+					for k := range cbsets[c2] {
+						if !s[k] {
+							s[k] = true
+							ch = true
+						}
+					}
+				}
+			}
+		}
+	}
+	p.cbsets = cbsets
+	for fn, mi := range infos {
+		for k := range cbsets[fn] {
+			for _, impl := range p.cbImpls[k] {
+				mi.callees[impl] = true
+			}
+		}
 	}
 	// fixpoint
 	sets := map[*types.Func]map[string]bool{}
@@ -120,7 +189,19 @@ func (p *Program) buildModsets() {
 // calleeSet returns the write-set contribution of calling fn.
 func (p *Program) calleeSet(fn *types.Func, sets map[*types.Func]map[string]bool) map[string]bool {
 	if c := p.ContractFor(fn); c != nil && c.ModGiven {
-		return p.contractKeys(c)
+		ks := p.contractKeys(c)
+		extra := p.callbackExtra(fn, sets)
+		if len(extra) == 0 {
+			return ks
+		}
+		out := map[string]bool{}
+		for k := range ks {
+			out[k] = true
+		}
+		for k := range extra {
+			out[k] = true
+		}
+		return out
 	}
 	if s, ok := sets[fn]; ok {
 		return s
@@ -398,6 +479,20 @@ func (p *Program) scanWrites(fi *FuncInfo, body ast.Node, mi *modInfo) {
 						if fi.C == nil || !fi.C.PureFields[f.Sel.Name] {
 							mi.direct["*"] = true
 						} else if len(fi.C.CallbackMods[f.Sel.Name]) > 0 {
+							if bt := info.Types[f.X].Type; bt != nil {
+								if isPointer(bt) {
+									bt = bt.Underlying().(*types.Pointer).Elem()
+								}
+								if n, ok := types.Unalias(bt).(*types.Named); ok {
+									mi.cbs[n.Obj().Name()+"."+f.Sel.Name] = true
+									if ft, ok := info.Types[f].Type.(*types.Named); ok {
+										if p.cbFieldType == nil {
+											p.cbFieldType = map[string]*types.Named{}
+										}
+										p.cbFieldType[n.Obj().Name()+"."+f.Sel.Name] = ft
+									}
+								}
+							}
 							if sc, err := p.scopeFor(fi.C); err == nil {
 								for _, m := range fi.C.CallbackMods[f.Sel.Name] {
 									if ks, ok := p.wildcardKeys(fi.C, m, sc); ok {
@@ -532,7 +627,7 @@ func (e *Exec) directWrites(body ast.Node, extra []ast.Node) map[string][]loopWr
 
 // calleeKeysOf returns the heap keys written by the calls made in a loop body (callee write-sets only).
 func (e *Exec) calleeKeysOf(body ast.Node, extra []ast.Node) map[string]bool {
-	mi := &modInfo{direct: map[string]bool{}, callees: map[*types.Func]bool{}}
+	mi := &modInfo{direct: map[string]bool{}, callees: map[*types.Func]bool{}, cbs: map[string]bool{}}
 	fi := e.fr().fi
 	e.P.scanWrites(fi, body, mi)
 	for _, x := range extra {
@@ -548,7 +643,7 @@ func (e *Exec) calleeKeysOf(body ast.Node, extra []ast.Node) map[string]bool {
 		if c, ok := n.(*ast.CallExpr); ok {
 			if id, ok := c.Fun.(*ast.Ident); ok {
 				if lit := e.closureLit(id); lit != nil {
-					m2 := &modInfo{direct: map[string]bool{}, callees: map[*types.Func]bool{}}
+					m2 := &modInfo{direct: map[string]bool{}, callees: map[*types.Func]bool{}, cbs: map[string]bool{}}
 					e.P.scanWrites(fi, lit.Body, m2)
 					for k := range m2.direct {
 						out[k] = true
@@ -564,6 +659,13 @@ func (e *Exec) calleeKeysOf(body ast.Node, extra []ast.Node) map[string]bool {
 	for cal := range mi.callees {
 		for k := range e.P.ModSet(cal) {
 			out[k] = true
+		}
+	}
+	for cb := range mi.cbs {
+		for _, impl := range e.P.cbImplsOf(cb) {
+			for k := range e.P.ModSet(impl) {
+				out[k] = true
+			}
 		}
 	}
 	return out
@@ -609,7 +711,7 @@ func (e *Exec) stableExpr(x ast.Expr, assigned map[types.Object]bool, modKeys ma
 
 // modKeysOf returns the heap keys a loop body (plus extra nodes) may write.
 func (e *Exec) modKeysOf(body ast.Node, extra []ast.Node) map[string]bool {
-	mi := &modInfo{direct: map[string]bool{}, callees: map[*types.Func]bool{}}
+	mi := &modInfo{direct: map[string]bool{}, callees: map[*types.Func]bool{}, cbs: map[string]bool{}}
 	fi := e.fr().fi
 	e.P.scanWrites(fi, body, mi)
 	for _, x := range extra {
@@ -638,5 +740,258 @@ func (e *Exec) modKeysOf(body ast.Node, extra []ast.Node) map[string]bool {
 		}
 	}
 	// register keys that are not yet known to this run (so that havoc covers them if used later)
+	return out
+}
+
+// staticTargets: fn itself, or - for an interface method - its implementations in the loaded packages.
+func (p *Program) staticTargets(fn *types.Func, infos map[*types.Func]*modInfo) []*types.Func {
+	if _, ok := infos[fn]; ok {
+		return []*types.Func{fn}
+	}
+	sig := fn.Type().(*types.Signature)
+	if sig.Recv() == nil || !isInterface(sig.Recv().Type()) {
+		return nil
+	}
+	it := sig.Recv().Type().Underlying().(*types.Interface)
+	var out []*types.Func
+	for f2 := range infos {
+		s2 := f2.Type().(*types.Signature)
+		if s2.Recv() == nil || f2.Name() != fn.Name() {
+			continue
+		}
+		if types.Implements(s2.Recv().Type(), it) || types.Implements(types.NewPointer(s2.Recv().Type()), it) {
+			out = append(out, f2)
+		}
+	}
+	return out
+}
+
+// ownPkgKey: heap keys that belong to package pkg (fields of its types, its ghost fields): state that a clause of
+// another package cannot name.
+func ownPkgKey(k, pkg string) bool {
+	short := pkg
+	if i := strings.LastIndex(short, "/"); i >= 0 {
+		short = short[i+1:]
+	}
+	if strings.HasPrefix(k, "F:"+short+"_") || strings.HasPrefix(k, "G:"+short+".") {
+		return true
+	}
+	// maps / pointer cells whose type mentions a type of the package
+	if strings.HasPrefix(k, "M") || strings.HasPrefix(k, "P:") {
+		return strings.Contains(k, mangle(pkg)+"_")
+	}
+	return false
+}
+
+// CallbackFrameNotes: what a registered callback implementation writes outside its own package must be allowed by
+// the `callback <field> modifies ...` clause of every function that invokes the field directly.
+func (p *Program) CallbackFrameNotes() []string {
+	p.buildModsets()
+	var out []string
+	for fn, fi := range p.Funcs {
+		if fi.C == nil || fi.Decl.Body == nil {
+			continue
+		}
+		for field, mods := range fi.C.CallbackMods {
+			allowed := map[string]bool{}
+			sc, err := p.scopeFor(fi.C)
+			if err != nil {
+				continue
+			}
+			for _, m := range mods {
+				if ks, ok := p.wildcardKeys(fi.C, m, sc); ok {
+					for _, k := range ks {
+						allowed[k] = true
+					}
+				} else {
+					tmp := &Contract{Key: fi.C.Key, Pkg: fi.C.Pkg, File: fi.C.File, Line: fi.C.Line, ParamName: fi.C.ParamName, RecvName: fi.C.RecvName, Modifies: []string{m}, ModGiven: true}
+					for k := range p.contractKeysNoCache(tmp, fi.C) {
+						allowed[k] = true
+					}
+				}
+			}
+			for cb, impls := range p.cbImpls {
+				if !strings.HasSuffix(cb, "."+field) || !p.cbsets[fn][cb] {
+					continue
+				}
+				for _, impl := range impls {
+					pkg := ""
+					if impl.Pkg() != nil {
+						pkg = impl.Pkg().Path()
+					}
+					var bad []string
+					for k := range p.calleeSet(impl, p.modsets) {
+						if !ownPkgKey(k, pkg) && !allowed[k] && !allowed["*"] {
+							bad = append(bad, k)
+						}
+					}
+					sortStrings(bad)
+					for _, k := range bad {
+						out = append(out, fullFuncName(impl)+"|"+cb+"|"+k+"|"+fi.FullName())
+					}
+				}
+			}
+		}
+	}
+	sortStrings(out)
+	return out
+}
+
+// callbackExtra: for a function with a declared frame, the keys written by the registered implementations of the
+// callbacks it may (transitively) invoke that belong to the implementation's own package - a declared frame of
+// another package cannot list them, yet a caller in the implementation's package must see them havocked. What
+// an implementation writes outside its own package must be allowed by the `callback ... modifies` clause; that is
+// checked by CallbackFrameNotes.
+func (p *Program) callbackExtra(fn *types.Func, sets map[*types.Func]map[string]bool) map[string]bool {
+	cbs := p.cbsets[fn]
+	if len(cbs) == 0 {
+		return nil
+	}
+	out := map[string]bool{}
+	for cb := range cbs {
+		for _, impl := range p.cbImpls[cb] {
+			pkg := ""
+			if impl.Pkg() != nil {
+				pkg = impl.Pkg().Path()
+			}
+			var ms map[string]bool
+			if c := p.ContractFor(impl); c != nil && c.ModGiven {
+				ms = p.contractKeys(c)
+			} else {
+				ms = sets[impl]
+			}
+			for k := range ms {
+				if k == "*" || ownPkgKey(k, pkg) {
+					out[k] = true
+				}
+			}
+		}
+	}
+	return out
+}
+
+// CallbackExtra is callbackExtra over the final write-sets.
+func (p *Program) CallbackExtra(fn *types.Func) map[string]bool {
+	p.buildModsets()
+	return p.callbackExtra(fn, p.modsets)
+}
+
+// BaseModSet: the write-set of fn without what registered callback implementations write.
+func (p *Program) BaseModSet(fn *types.Func) map[string]bool {
+	p.buildModsets()
+	if c := p.ContractFor(fn); c != nil && c.ModGiven {
+		return p.contractKeys(c)
+	}
+	return p.calleeSet(fn, p.baseModsets)
+}
+
+// CallbackRegistrationNotes: every function the (non-test) program converts to the named function type of a
+// callback field must be registered for it (`registers Type.field` on its contract) - otherwise its writes would be
+// missing from the write-set of whatever invokes the field.
+func (p *Program) CallbackRegistrationNotes() []string {
+	p.buildModsets()
+	var out []string
+	for cb, ft := range p.cbFieldType {
+		registered := map[*types.Func]bool{}
+		for _, f := range p.cbImpls[cb] {
+			registered[f] = true
+		}
+		for _, pkg := range p.Pkgs {
+			info := pkg.TypesInfo
+			if info == nil {
+				continue
+			}
+			check := func(dst types.Type, src ast.Expr) {
+				if dst == nil || !types.Identical(dst, ft) {
+					return
+				}
+				for {
+					if pe, ok := src.(*ast.ParenExpr); ok {
+						src = pe.X
+					} else {
+						break
+					}
+				}
+				var fn *types.Func
+				switch v := src.(type) {
+				case *ast.Ident:
+					fn, _ = info.Uses[v].(*types.Func)
+				case *ast.SelectorExpr:
+					if sel := info.Selections[v]; sel != nil && sel.Kind() == types.MethodVal {
+						fn, _ = sel.Obj().(*types.Func)
+					} else if sel == nil {
+						fn, _ = info.Uses[v.Sel].(*types.Func)
+					}
+				case *ast.FuncLit:
+					out = append(out, "UNSUPPORTED: a function literal is installed as callback "+cb+" at "+pkg.Fset.Position(v.Pos()).String()+": it cannot be registered, its writes are unknown to the invoker")
+					return
+				}
+				if fn != nil && !registered[fn] {
+					out = append(out, "UNSUPPORTED: "+fullFuncName(fn)+" is installed as callback "+cb+" at "+pkg.Fset.Position(src.Pos()).String()+" but its contract does not say `registers "+cb+"`")
+				}
+			}
+			for _, file := range pkg.Syntax {
+				if strings.HasSuffix(pkg.Fset.Position(file.Pos()).Filename, "_test.go") {
+					continue
+				}
+				ast.Inspect(file, func(n ast.Node) bool {
+					switch v := n.(type) {
+					case *ast.CallExpr:
+						if tv, ok := info.Types[v.Fun]; ok && tv.IsType() {
+							if len(v.Args) == 1 {
+								check(tv.Type, v.Args[0])
+							}
+							return true
+						}
+						if sig, ok := info.Types[v.Fun].Type.(*types.Signature); ok {
+							for i, a := range v.Args {
+								if i < sig.Params().Len() {
+									check(sig.Params().At(i).Type(), a)
+								}
+							}
+						}
+					case *ast.AssignStmt:
+						if len(v.Lhs) == len(v.Rhs) {
+							for i := range v.Lhs {
+								if t := info.Types[v.Lhs[i]].Type; t != nil {
+									check(t, v.Rhs[i])
+								} else if id, ok := v.Lhs[i].(*ast.Ident); ok {
+									if o := info.Defs[id]; o != nil {
+										check(o.Type(), v.Rhs[i])
+									}
+								}
+							}
+						}
+					case *ast.ValueSpec:
+						if v.Type != nil && len(v.Values) == len(v.Names) {
+							for i := range v.Names {
+								check(info.Types[v.Type].Type, v.Values[i])
+							}
+						}
+					case *ast.CompositeLit:
+						if st, ok := info.Types[v].Type.Underlying().(*types.Struct); ok {
+							for i, el := range v.Elts {
+								if kv, ok := el.(*ast.KeyValueExpr); ok {
+									if id, ok := kv.Key.(*ast.Ident); ok {
+										for j := 0; j < st.NumFields(); j++ {
+											if st.Field(j).Name() == id.Name {
+												check(st.Field(j).Type(), kv.Value)
+											}
+										}
+									}
+								} else if i < st.NumFields() {
+									check(st.Field(i).Type(), el)
+								}
+							}
+						}
+					case *ast.ReturnStmt:
+						// returning a function as the callback type: not tracked (no such code in the repository)
+					}
+					return true
+				})
+			}
+		}
+	}
+	sortStrings(out)
 	return out
 }
